@@ -101,3 +101,90 @@ class ContextExit:
 
     def ensures(self, exc_type, exc_val, exc_tb):
         return {"restores": tl_get(self.data, "context") is old(self._old)}
+
+
+REG = "json_to_models/dynamic_typing/string_serializable.py::StringSerializableRegistry"
+
+
+@contract("json_to_models/dynamic_typing/string_datetime.py::register_datetime_classes", props=["C09"], verify=False)
+class RegisterDatetime:
+    modifies = ["types", "replaces"]
+
+
+@assumed("permutations", props=[])
+class Permutations2:
+    """itertools.permutations(s, 2): exactly the ordered pairs of distinct members of s"""
+    sorts = {"a0": "set", "a1": "int", "result": "list"}
+
+    def ensures(self, a0, a1, result):
+        return {
+            "pairs": implies(a1 == 2, forall(result, lambda p: p is tuple2(at(p, 0), at(p, 1)) and at(p, 0) in a0 and at(p, 1) in a0 and not (at(p, 0) is at(p, 1)))),
+            "all_pairs": implies(a1 == 2, forall(a0, lambda a: forall(a0, lambda b: implies(not (a is b), tuple2(a, b) in result)))),
+        }
+
+
+@contract(REG + ".remove", props=["C09"])
+class RegistryRemove:
+    """C09 'disabled types never appear': after remove(c) the class is registered no more (one registration removed)
+    and no replace pair mentions it; every other pair is kept."""
+    sorts = {"types": "list", "replaces": "set"}
+    modifies = ["types", "replaces"]
+
+    def requires(self, cls):
+        return {"registered": cls in self.types,
+                "replaces_are_pairs": forall(self.replaces, lambda p: p is tuple2(at(p, 0), at(p, 1)))}
+
+    def ensures(self, cls):
+        return {
+            "one_registration_removed": seq_len(self.types) == seq_len(old(self.types)) - 1 and forall(self.types, lambda t: t in old(self.types)),
+            "others_still_registered": forall(old(self.types), lambda t: implies(not (t == cls), t in self.types)),
+            "no_pair_mentions_cls": forall(self.replaces, lambda p: not (at(p, 0) is cls) and not (at(p, 1) is cls)),
+            "other_pairs_kept": forall(old(self.replaces), lambda p: implies(not (at(p, 0) is cls) and not (at(p, 1) is cls), p in self.replaces)),
+            "no_new_pairs": forall(self.replaces, lambda p: p in old(self.replaces)),
+            "gone_if_registered_once": implies(distinct(old(self.types)), distinct(self.types) and not (cls in self.types)),
+        }
+
+
+@loop(REG + ".remove", 1)
+def registry_remove_loop(self, cls, _it, _seq):
+    return {
+        "subset": forall(self.replaces, lambda p: p in old(self.replaces)),
+        "seen_removed": forall(range(_it), lambda j: implies(at(_seq[j], 0) is cls or at(_seq[j], 1) is cls, not (_seq[j] in self.replaces))),
+        "others_kept": forall(old(self.replaces), lambda p: implies(not (at(p, 0) is cls) and not (at(p, 1) is cls), p in self.replaces)),
+        "unseen_kept": forall(range(_it, seq_len(_seq)), lambda j: _seq[j] in self.replaces),
+        "types_done": seq_len(self.types) == seq_len(old(self.types)) - 1 and forall(self.types, lambda t: t in old(self.types))
+        and forall(old(self.types), lambda t: implies(not (t == cls), t in self.types))
+        and implies(distinct(old(self.types)), distinct(self.types) and not (cls in self.types)),
+    }
+
+
+@contract(REG + ".remove_by_name", props=["C09"])
+class RegistryRemoveByName:
+    """C09: disabling by name removes exactly the classes whose own name or whose actual type's name is that name
+    (given that each class is registered once), and every replace pair mentioning them."""
+    sorts = {"name": "str", "types": "list", "replaces": "set", "types[]": "class", "_seq[]": "class"}
+    modifies = ["types", "replaces"]
+
+    def requires(self, name):
+        return {"replaces_are_pairs": forall(self.replaces, lambda p: p is tuple2(at(p, 0), at(p, 1))),
+                "registered_once": distinct(self.types),
+                "all_classes": forall(self.types, lambda t: is_class(t))}
+
+    def ensures(self, name):
+        return {
+            "named_classes_gone": forall(self.types, lambda t: not (cls_name(t) == name or cls_name(clsattr(t, "actual_type")) == name)),
+            "others_kept": forall(old(self.types), lambda t: implies(not (cls_name(t) == name or cls_name(clsattr(t, "actual_type")) == name), t in self.types)),
+            "nothing_added": forall(self.types, lambda t: t in old(self.types)),
+        }
+
+
+@loop(REG + ".remove_by_name", 1)
+def registry_remove_by_name_loop(self, name, _it, _seq):
+    return {
+        "pairs": forall(self.replaces, lambda p: p is tuple2(at(p, 0), at(p, 1))),
+        "seen_named_gone": forall(range(_it), lambda j: implies(cls_name(_seq[j]) == name or cls_name(clsattr(_seq[j], "actual_type")) == name, not (_seq[j] in self.types))),
+        "kept": forall(range(seq_len(_seq)), lambda j: implies(j >= _it or not (cls_name(_seq[j]) == name or cls_name(clsattr(_seq[j], "actual_type")) == name), _seq[j] in self.types)),
+        "nothing_added": forall(self.types, lambda t: t in _seq),
+        "still_classes": forall(self.types, lambda t: is_class(t)),
+        "still_once": distinct(self.types) and distinct(_seq),
+    }
